@@ -89,3 +89,44 @@ def ids(x, out=None, _seen=None):
         for v in vars(x).values():
             ids(v, out, _seen)
     return out
+
+
+# ------------------------------------------------------------------ wrapper-based purity monitor
+READ_ONLY = {
+    "Tag": ["tagify", "render", "__str__", "__repr__", "_repr_html_", "get_html_string", "get_dependencies", "__copy__", "save_html"],
+    "TagList": ["tagify", "render", "__str__", "__repr__", "_repr_html_", "get_html_string", "get_dependencies", "save_html"],
+    "HTMLDocument": ["render", "save_html"],
+    "HTMLDependency": ["as_html_tags", "as_dict", "source_path_map", "serialize_to_script_json", "copy_to", "__str__", "__repr__"],
+    "HTMLTextDocument": ["render"],
+}
+
+
+def install_purity_wrappers(ctx):
+    """Fingerprint receiver and arguments around the OUTERMOST monitored read-only call (fires on every call any
+    workload makes, including the repository's own tests)."""
+    from . import contracts
+
+    depth = [0]
+
+    def before(self, a, kw):
+        depth[0] += 1
+        if depth[0] == 1:
+            return (fp(self), fp(a), fp(kw))
+        return None
+
+    def make_after(cls, name):
+        def after(self, a, kw, token, res, exc):
+            depth[0] -= 1
+            if token is None:
+                return
+            ctx.count("monitor.purity_wrapper")
+            now = (fp(self), fp(a), fp(kw))
+            if now != token:
+                ctx.violation("read-only-op-mutates:" + name, "%s.%s changed its receiver or arguments" % (cls, name),
+                              {"class": cls, "method": name, "receiver": repr(self)[:300]})
+        return after
+
+    for cls, names in READ_ONLY.items():
+        c = getattr(ht, cls)
+        for n in names:
+            contracts.wrap_method(c, n, before=before, after=make_after(cls, n))
